@@ -8,7 +8,7 @@ namespace TrustVerif.StCore
 /-- `StoreWT Γ σ` as a Boolean: every declared variable holds a value whose runtime tag is the
 declared type and whose magnitude lies in that type's range. -/
 def envWT (Γ : Ctx) (e : Env) : Bool :=
-  Γ.all fun (x, t) =>
+  Γ.vars.all fun (x, t) =>
     match lookup x e with
     | some v => v.hasTy t
     | none => false
@@ -45,7 +45,7 @@ def SlotClass.sig : SlotClass → String
 
 /-- First slot of the store that is not well typed, with its class. -/
 def firstBadSlot (Γ : Ctx) (e : Env) : Option (String × SlotClass) :=
-  Γ.findSome? fun (x, t) =>
+  Γ.vars.findSome? fun (x, t) =>
     let c := slotClass t (lookup x e)
     if c = .ok then none else some (x, c)
 
